@@ -418,6 +418,19 @@ Proof.
   split; [exact Hc|]. apply nodup_bounded_perm; assumption.
 Qed.
 
+(** the return value of `Manager::gc` = removed inner nodes + removed terminals *)
+Theorem tcollect_count_spec : forall s,
+  tcollect_count k nl s =
+  (length (cn (ts_c s)) - length (cn (ts_c (tcollect s)))) +
+  (length (ts_tt s) - length (ts_tt (tcollect s))).
+Proof.
+  intros s. unfold tcollect_count, tgc_count. fold (tcollect s).
+  destruct (tcollect_inner_c s) as [_ [_ [Pk _]]].
+  destruct (tgc_in_frame (map fst (ts_tt (tcollect_inner s))) (tcollect_inner s)) as [Gc _].
+  fold (tgc (tcollect_inner s)) in Gc. fold (tcollect s) in Gc. rewrite Gc.
+  rewrite <- (map_length fst (ts_tt (tcollect_inner s))), Pk, map_length. reflexivity.
+Qed.
+
 (** ** histories *)
 
 Theorem thrun_inv : forall hist s s', MInv s -> thrun k nl s hist = Some s' -> MInv s'.
